@@ -16,8 +16,9 @@ VERIF = runner.VERIF
 
 
 def determinism(props, n_seeds=200, tier='quick'):
-    bad = 0
+    total_bad = 0
     for prop in props:
+        bad = 0
         mod = runner.check_module(prop)
         seeds = [7 * 1_000_003 + i for i in range(min(n_seeds, 60))]
         a = {}
@@ -50,7 +51,8 @@ def determinism(props, n_seeds=200, tier='quick'):
                 bad += 1
         print(f'determinism property={prop}: {len(ref)} seeds x {len(variants)} variants '
               f'+ {len(seeds)} in-process double runs: {"OK" if not bad else "FAILED"}')
-    return 1 if bad else 0
+        total_bad += bad
+    return 1 if total_bad else 0
 
 
 def main(argv):
